@@ -37,6 +37,10 @@ def gen(tape, cfg):
 async def scenario(world, spec):
     it = float(world.tape.choice([2, 4, 8, 60], "idle_timeout"))
     world.cfg["idle_timeout"] = it
+    # half of the runs on a store whose calls really suspend (as a networked database would)
+    world.cfg["store_latency"] = bool(world.tape.draw(2, "store-latency?"))
+    if world.cfg["store_latency"]:
+        world.probe("store-latency-arm")
     inc = world.new_incarnation()
     wf = inc.add_workflow("wf", spec)
     await inc.start()
@@ -57,8 +61,14 @@ async def scenario(world, spec):
         if st["idle_pub_t"] is None:
             return
         live = world.live_runners.get(world._run) or []
+        if not live:
+            # released: that idle period is over; a reloaded control loop starts a new one with its own announcement
+            st["idle_pub_t"] = None
+            return
         quiet_for = world.clock.t - max(st["last_act"], st["idle_pub_t"])
-        if live and quiet_for > it + 1e-9 and not world.open_bodies:
+        # on a store whose calls suspend, the release itself (query, status write) takes a few of those suspensions
+        slack = (16.0 / 1024) if world.cfg.get("store_latency") else 1e-9
+        if live and quiet_for > it + slack and not world.open_bodies:
             world.violate("C36.not-released", f"run idle since t={st['idle_pub_t']} (last activity t={st['last_act']}), idle_timeout={it}, "
                           f"still has a live control loop at t={world.clock.t}", backend=world.backend)
             st["idle_pub_t"] = None
@@ -144,7 +154,19 @@ def check(world, spec, outcome) -> None:
     spurious_idle = False      # an idle announcement was made while a sent event was still unprocessed (C03 finding)
     done_before: set = set()
     aborted = False
+    # second root of a release that cuts into work (recorded as C26-release-races-send): the idle announcement the release rests
+    # on was published while an external send was between its call and its arrival in the run's mailbox
+    put_seq = {}
+    for q_, _, k_, f_ in recs:
+        if k_ == "mailbox-put" and f_.get("tick") == "add_event":
+            put_seq.setdefault(f_["uid"], q_)
+    last_idle_pub = None
+    last_idle_t = None
+    send_in_flight = False
     for seq, t, kind, f in recs:
+        if kind == "publish" and f["ev"] == "WorkflowIdleEvent":
+            last_idle_pub = seq
+            last_idle_t = t
         if kind == "enter":
             open_inv.add(f["inv"])
             unacked.add((f["step"], str(f["uid"])))
@@ -158,7 +180,7 @@ def check(world, spec, outcome) -> None:
             spurious_idle = True
         if kind == "enter" and aborted and (f["step"], str(f["uid"])) in done_before:
             world.violate("C36.reload-failed", f"step {f['step']} ran again for input {f['uid']} after a release/reload although it had completed before",
-                          seq, how="restarted-completed-work", backend=world.backend, after_spurious_idle=spurious_idle)
+                          seq, how="restarted-completed-work", backend=world.backend, after_spurious_idle=spurious_idle, send_in_flight_at_idle=send_in_flight)
         if kind == "tick" and f["tick"] not in ("idle_check",):
             last_act = t
             acts.append(t)
@@ -178,11 +200,21 @@ def check(world, spec, outcome) -> None:
                 aborted = True
                 with_work = bool(open_inv or unacked or any(u not in processed for u in sends))
                 rel_with_work = rel_with_work or with_work
+                # ... or, on a store whose calls suspend, the send was called while the marker write of that announcement was still
+                # under way (same few suspensions): either way send_event's clear and the idle stamp raced outside the reload lock
+                win = (16.0 / 1024) if world.cfg.get("store_latency") else 0.0
+                if with_work and last_idle_pub is not None and any(
+                        (sseq < last_idle_pub and (put_seq.get(u) is None or put_seq[u] > last_idle_pub)) or
+                        (win and last_idle_t is not None and 0 <= st_ - last_idle_t <= win) for u, (sseq, st_) in sends.items()):
+                    send_in_flight = True
+                    world.probe("idle-marked-while-send-in-flight")
                 # activity at the very instant of the release is a tie (either order is legitimate)
-                la = max([x for x in acts if x < t - 1e-9], default=0.0)
+                # (on a store whose calls suspend the abort lags the release decision by those suspensions: same tie window)
+                tie = (16.0 / 1024) if world.cfg.get("store_latency") else 1e-9
+                la = max([x for x in acts if x < t - tie], default=0.0)
                 if t - la < it - 1e-9:
                     world.violate("C36.early-release", f"released at t={t}, last activity at t={la}, idle_timeout={it}", seq, backend=world.backend,
-                                  released_with_work=with_work, after_spurious_idle=spurious_idle)
+                                  released_with_work=with_work, after_spurious_idle=spurious_idle, send_in_flight_at_idle=send_in_flight)
                 if any(abs(st - t) < 1e-9 for _, st in sends.values()):
                     world.probe("release-and-send-same-instant")
         elif kind == "runner-start" and n_rel:
@@ -193,7 +225,7 @@ def check(world, spec, outcome) -> None:
         world.probe("released-with-work-in-progress")
     for u, (sseq, st) in sends.items():
         if u not in processed:
-            world.violate("C36.reload-failed", f"event uid={u} sent at t={st} was never processed by the run (releases so far: {n_rel})", sseq, how="event-not-processed", backend=world.backend, released_with_work=rel_with_work, after_spurious_idle=spurious_idle)
+            world.violate("C36.reload-failed", f"event uid={u} sent at t={st} was never processed by the run (releases so far: {n_rel})", sseq, how="event-not-processed", backend=world.backend, released_with_work=rel_with_work, after_spurious_idle=spurious_idle, send_in_flight_at_idle=send_in_flight)
     final = outcome.get("final") if outcome else None
     import json
     want = expected_keys(spec, world)
@@ -204,9 +236,9 @@ def check(world, spec, outcome) -> None:
         except Exception:  # noqa: BLE001
             got = None
     if final is None or final[0] != "completed":
-        world.violate("C36.reload-failed", f"run did not complete after release/reload: handler {final}", how="not-completed", backend=world.backend, released_with_work=rel_with_work, after_spurious_idle=spurious_idle)
+        world.violate("C36.reload-failed", f"run did not complete after release/reload: handler {final}", how="not-completed", backend=world.backend, released_with_work=rel_with_work, after_spurious_idle=spurious_idle, send_in_flight_at_idle=send_in_flight)
     elif got != want:
-        world.violate("C36.reload-failed", f"run continued to a different result: {got}, expected {want}", how="different-result", backend=world.backend, released_with_work=rel_with_work, after_spurious_idle=spurious_idle)
+        world.violate("C36.reload-failed", f"run continued to a different result: {got}, expected {want}", how="different-result", backend=world.backend, released_with_work=rel_with_work, after_spurious_idle=spurious_idle, send_in_flight_at_idle=send_in_flight)
     world._nt = n_rel >= 1 and bool(world.probes.get("event-to-released-run"))
 
 
